@@ -10,6 +10,8 @@
  *                              t->format = fmt (set directly), t->max_line_length = L, t->ellipsis = ell,
  *                              qb_log_target_format into malloc(L) pre-filled with <garbage>
  *                              -> "orc <%t text> <%T text>"  then  "out <all L bytes>"
+ *   M <L> <prio> <ext> <msg>   whole log call qb_log_from_external_source(.., "%s", .., msg) to the custom target
+ *                              -> "msg <text the logger got>" per delivery, "dlv <count>"
  *   F <L> <fmt>                t->max_line_length = L; qb_log_format_set(t, fmt)
  *                              -> "orc2 <pid text> <hostname> <name>" then "fmt <resulting t->format>"
  */
@@ -146,12 +148,15 @@ int main(void)
 			tg->max_line_length = QB_LOG_MAX_LEN;
 			tg->ellipsis = 0;
 		} else if (strcmp(cmd, "M") == 0) {
-			/* M <L> <priority> <msg>: a whole log call ("%s", msg) delivered to the custom target whose
-			 * max_line_length is L -> "msg <text handed to the logger>" per delivery, then "dlv <count>" */
+			/* M <L> <priority> <extended> <msg>: a whole log call ("%s", msg) delivered to the custom target whose
+			 * max_line_length is L and whose QB_LOG_CONF_EXTENDED is <extended>
+			 * -> "msg <text handed to the logger>" per delivery, then "dlv <count>" */
 			size_t L = strtoull(NEXT, NULL, 0);
 			int prio = atoi(NEXT);
+			int ext = atoi(NEXT);
 			char *msg = unhex_str(NEXT, NULL);
 			tg->max_line_length = L;
+			qb_log_ctl(t, QB_LOG_CONF_EXTENDED, ext);
 			delivered = 0;
 			qb_log_filter_ctl(t, QB_LOG_FILTER_ADD, QB_LOG_FILTER_FILE, "*", LOG_TRACE);
 			qb_log_ctl(t, QB_LOG_CONF_ENABLED, QB_TRUE);
